@@ -374,6 +374,8 @@ class FileEnv:
         except Exception:  # noqa: BLE001
             pass
         modes = [m for _, m, _ in self.opens]
-        if modes.count("wt") < 2 or len([m for m in modes if m.startswith("r")]) < 2:
+        # numpy's own opens (one for the save, one for the load) must come through the router; how numpoly itself
+        # peeks at the header is the library's business (whatever it uses reads the real file the router wrote back)
+        if modes.count("wt") < 1 or len([m for m in modes if m.startswith("r")]) < 1:
             raise core.HarnessError(f"FileSeam self-probe: router saw only {self.opens}")
         self.opens = []
